@@ -109,6 +109,28 @@ BOUND_KINDS = ['none', 'active', 'near', 'wide']
 N_KINDS = [(10, 30), (1, 1), (1000, 1000)]
 INIT_KINDS = ['present', 'zero', 'equal', 'absent']
 NULL_KINDS = ['present', 'absent']
+# scaling of the parameters (congruence D (-H) D, D B D with D diagonal, powers of two; estimates and bootstrap
+# replications are divided by D: the same outcome in other units).  'unit' is the original alphabet.  The others give
+# regular, well-conditioned-in-floating-point Hessians whose eigenvalues are far from 1: all tiny ('tiny': 2^-24),
+# one / two badly scaled parameters ('mixed': last one 2^-12; 'mixed2': 2^-10, 1, 2^-14), all large ('huge': 2^20).
+HSC_KINDS = ['unit', 'tiny', 'mixed', 'mixed2', 'huge']
+# identification_threshold of the results object (a reporting option: it decides which warning is printed and
+# must not change any statistic).  'e-5' (explicit 1e-5) is what the original alphabet used; 'default' omits it.
+THR_KINDS = {'e-5': 1e-5, 'default': None, 'e-2': 1e-2, 'one': 1.0, 'e+4': 1e4, 'zero': 0.0, 'e-9': 1e-9}
+
+
+def scale_vector(kind, k):
+    if kind == 'unit':
+        return [1.0] * k
+    if kind == 'tiny':
+        return [2.0 ** -12] * k
+    if kind == 'huge':
+        return [2.0 ** 10] * k
+    if kind == 'mixed':
+        return [1.0] * (k - 1) + [2.0 ** -12]
+    if kind == 'mixed2':
+        return [2.0 ** -10, 1.0, 2.0 ** -14][:k]
+    raise ValueError(kind)
 
 
 def bounds_of(kind, values):
@@ -151,18 +173,24 @@ def materialise(d, seed):
     else:
         bhhh = [[hs * x for x in row] for row in B_RANK1[k]]
     values = [V_SCALE[s8] * x for x in V_BASE[k][d['v']]]
+    dsc = scale_vector(d.get('hsc', 'unit'), k)
+    if d.get('hsc', 'unit') != 'unit':
+        hess = [[dsc[i] * dsc[j] * hess[i][j] for j in range(k)] for i in range(k)]
+        bhhh = [[dsc[i] * dsc[j] * bhhh[i][j] for j in range(k)] for i in range(k)]
+        values = [values[i] / dsc[i] for i in range(k)]
     ll = LL_FINAL[s8] + d.get('lls', 0.0)
     null = None if d['null'] == 'absent' else 2.0 * ll - 1.0
     init = {'present': 1.5 * ll - 0.5, 'zero': 0.0, 'equal': ll, 'absent': None}[d['init']]
     boot = None
     if d['boot'] != 'none':
         rows = BOOT_SETS[seed % 2][d['boot']]
-        boot = [[BOOT_SCALE[s8] * float(x) for x in r[:k]] for r in rows]
+        boot = [[BOOT_SCALE[s8] * float(x) / dsc[i] for i, x in enumerate(r[:k])] for r in rows]
     n, nobs = N_KINDS[d['n']]
     return dict(k=k, names=list(names), values=values, hessian=hess, bhhh=bhhh, loglike=ll, init=init, null=null,
                 bootstrap=boot, bounds=bounds_of(d['bd'], values), n=n, nobs=nobs,
                 gradient=[0.001 * (i + 1) for i in range(k)], excluded=3, threads=2,
-                label=A_FAMILY[k][d['h']][0])
+                label=A_FAMILY[k][d['h']][0] + ('' if d.get('hsc', 'unit') == 'unit' else '*' + d['hsc']),
+                thr=THR_KINDS[d.get('thr', 'e-5')])
 
 
 def outcome_space(tier, seed):
@@ -180,6 +208,26 @@ def outcome_space(tier, seed):
         for h, b, v, boot, bd in itertools.product(hs, bs, vs, boots, bds):
             for (nu, i), n in itertools.product(lls, ns):
                 out.append(dict(k=k, h=h, b=b, v=v, boot=boot, bd=bd, null=nu, init=i, n=n))
+    return out
+
+
+def scale_space(tier, seed):
+    """part 'o' continued: the product (parameter scaling x identification threshold x outcome) minus the
+    (unit, 1e-5) slice that outcome_space already holds."""
+    if tier == 'quick':
+        hscs, thrs = ('unit', 'tiny', 'mixed', 'huge'), ('e-5', 'default', 'one', 'e+4')
+        bs, vs, boots, bds = ('info', 'generic'), (0,), ('none', 'r3'), ('none',)
+    else:
+        hscs, thrs = tuple(HSC_KINDS), tuple(THR_KINDS)
+        bs, vs, boots, bds = tuple(B_KINDS), (0, 1), ('none', 'r3', 'const'), ('none', 'active')
+    out = []
+    for k in (1, 2, 3):
+        for h, hsc, thr, b, v, boot, bd in itertools.product(range(len(A_FAMILY[k])), hscs, thrs, bs, vs, boots, bds):
+            if hsc == 'unit' and thr == 'e-5':
+                continue
+            if k == 1 and hsc == 'mixed':
+                continue  # for K = 1 the same matrix as 'tiny'
+            out.append(dict(k=k, h=h, b=b, v=v, boot=boot, bd=bd, null='present', init='present', n=0, hsc=hsc, thr=thr))
     return out
 
 
@@ -208,7 +256,9 @@ def build_results(m):
                                 hessian=np.array(m['hessian'], dtype=float), bhhh=np.array(m['bhhh'], dtype=float))
     boot = None if m['bootstrap'] is None else np.array(m['bootstrap'], dtype=float)
     raw = res.RawResults(model, list(m['values']), fgh, bootstrap=boot)
-    return res.bioResults(raw, identification_threshold=1e-5)
+    if m.get('thr', 1e-5) is None:
+        return res.bioResults(raw)  # the constructor's own default (Parameters().identification_threshold)
+    return res.bioResults(raw, identification_threshold=m.get('thr', 1e-5))
 
 
 _REF_CACHE = {}
@@ -689,6 +739,9 @@ def tasks(tier, seed):
     space = outcome_space(tier, seed)
     for i in range(0, len(space), CHUNK):
         t.append(dict(part='o', seed=seed, outcomes=space[i:i + CHUNK]))
+    space = scale_space(tier, seed)
+    for i in range(0, len(space), CHUNK):
+        t.append(dict(part='o', seed=seed, outcomes=space[i:i + CHUNK]))
     t += extra_tasks(tier, seed)
     return t
 
@@ -749,7 +802,10 @@ def compile_tasks(tier, seed):
     return t
 
 
-def check_compile(tup, seed, flags, stats_kind, rec, built=None):
+def check_compile(tup, seed, flags, stats_kind, rec, built=None, kinds=None, files=None, form='dict'):
+    """kinds (part 'p'): how each entry of the dict is given - 'obj' a results object (part 'c': all of them),
+    'file' the name of its pickle file, the others a name behind which no results can be read.  form 'directory':
+    the same files found by compile_results_in_directory in the working directory."""
     import biogeme.results as res
 
     built = built if built is not None else {}
@@ -765,18 +821,46 @@ def check_compile(tup, seed, flags, stats_kind, rec, built=None):
     case = dict(part='c', seed=seed, tuple=list(tup), flags=list(flags), stats=stats_kind)
     tag = f'compile tuple={list(tup)} {kw} stats={stats_kind} seed={seed}'
     view = 'compile_estimation_results'
+    readable = [True] * len(models)
+    if kinds is not None:
+        case.update(part='p', kinds=list(kinds), form=form)
+        tag = f'compile tuple={list(tup)} entries={list(kinds)} form={form} {kw} stats={stats_kind} seed={seed}'
+        readable = [kd in READABLE_KINDS for kd in kinds]
     vkey = view + ('(formatted)' if kw['formatted'] else '(unformatted)')
     ck0 = Checker(rec, case, models[0][2], models[0][3], tag)
-    df, conf = res.compile_estimation_results({name: r for name, _, _, _, r in models}, statistics=statistics, **kw)
-    cols = [f'Model_{i:06d}' if kw['use_short_names'] else name for i, (name, *_rest) in enumerate(models)]
-    ck0.structure(view, 'columns', cols, list(df.columns))
-    ck0.structure(view, 'configurations', {c: name for c, (name, *_r) in zip(cols, models)}, dict(conf))
+    ekinds = list(kinds) if kinds is not None else None  # kinds in column order
+    if form == 'directory':
+        view = 'compile_results_in_directory'
+        vkey = view + ('(formatted)' if kw['formatted'] else '(unformatted)')
+        got = files.compile_directory(res, [(kd, idx, r) for kd, (_, idx, _, _, r) in zip(kinds, models)], statistics, kw)
+        if got is None:
+            ck0.structure(view, 'a table is returned when the directory holds .pickle files', 'table', None)
+            rec.case(('p', form, tuple(tup), tuple(kinds), tuple(flags), stats_kind, seed), (list(tup), list(kinds), 'none'),
+                     outcome=('compile-directory', 'no table'))
+            return
+        df, by_file = got
+        # columns are the file names, in the order the directory lists them: follow that order
+        order = sorted(range(len(models)), key=lambda i: (list(df.columns).index(by_file[i]) if by_file[i] in df.columns else -1))
+        ck0.structure(view, 'columns (as a set)', sorted(by_file), sorted(df.columns))
+        models = [(by_file[i],) + tuple(models[i][1:]) for i in order]
+        readable = [readable[i] for i in order]
+        ekinds = [kinds[i] for i in order]
+        cols = [name for name, *_r in models]
+    else:
+        entries = {name: (r if kinds is None or kd == 'obj' else files.path(kd, idx, r))
+                   for kd, (name, idx, _, _, r) in zip(kinds or ['obj'] * len(models), models)}
+        df, conf = res.compile_estimation_results(entries, statistics=statistics, **kw)
+        cols = [f'Model_{i:06d}' if kw['use_short_names'] else name for i, (name, *_rest) in enumerate(models)]
+        ck0.structure(view, 'columns', cols, list(df.columns))
+        ck0.structure(view, 'configurations', {c: name for c, (name, *_r) in zip(cols, models)}, dict(conf))
     # expected row labels
     se_f, tt_f = kw['include_robust_stderr'], kw['include_robust_ttest']
-    exp_rows = list(statistics)
+    exp_rows = list(statistics) if any(readable) else []
     prow = {}
     if kw['include_parameter_estimates']:
-        for _, _, m, _, _ in models:
+        for (_, _, m, _, _), ok in zip(models, readable):
+            if not ok:
+                continue  # nothing can be read behind this entry: it contributes no row
             for nm in m['names']:
                 if kw['formatted']:
                     labs = [(f'{nm}{" (std)" if se_f else ""}{" (t-test)" if tt_f else ""}', 'formatted')]
@@ -791,10 +875,28 @@ def check_compile(tup, seed, flags, stats_kind, rec, built=None):
     compared = ck0.compared
     bad = ck0.bad
     skipped = 0
-    for col, (name, idx, m, ref, r) in zip(cols, models):
+    for pos, (col, (name, idx, m, ref, r)) in enumerate(zip(cols, models)):
         if col not in df.columns:
             continue
         ck = Checker(rec, case, m, ref, tag + f' column={col}')
+        if not readable[pos]:
+            # no results exist for this model: a figure in its column is not the quantity of any row label
+            filled = [str(lab) for lab in df.index if not (isinstance(df.loc[lab, col], str) and df.loc[lab, col] == '')]
+            ck.compared += 1
+            if filled:
+                ck.bad += 1
+                others = [ekinds[q] for q in range(len(models)) if q != pos and readable[q]]
+                before = any(readable[:pos])
+                rec.violation(
+                    f'{ID}|{view}|column-of-unreadable-entry-holds-figures:entry={ekinds[pos]}:'
+                    f'{"after" if before else "before"}-a-readable-entry',
+                    f'{view}: the entry of column {col!r} is a results file that cannot be read ({ekinds[pos]}), but its '
+                    f'column holds figures in the rows {filled[:6]}{"..." if len(filled) > 6 else ""} (e.g. '
+                    f'{df.loc[filled[0], col]!r}); readable entries of the call: {others} [{tag}]',
+                    case, expected='empty column', observed={lab: repr(df.loc[lab, col]) for lab in filled[:6]})
+            compared += ck.compared
+            bad += ck.bad
+            continue
         named_g = ck.named_general()
         for lab in statistics:
             if lab in df.index:
@@ -836,6 +938,11 @@ def check_compile(tup, seed, flags, stats_kind, rec, built=None):
         skipped += ck.skipped
         bad += ck.bad
     rec.count('cells_compared', compared)
+    if kinds is not None:
+        rec.case(('p', form, tuple(tup), tuple(kinds), tuple(flags), stats_kind, seed) if compared else None,
+                 (list(tup), list(kinds), form, list(flags), stats_kind, compared, skipped, bad),
+                 outcome=('compile-entries', form, tuple(sorted(set(kinds))), kw['formatted'], skipped > 0, bad > 0))
+        return
     rec.case(('c', tuple(tup), tuple(flags), stats_kind, seed) if compared else None,
              (list(tup), list(flags), stats_kind, compared, skipped, bad),
              outcome=('compile', tuple(flags), len(tup), skipped > 0, bad > 0))
@@ -862,6 +969,141 @@ def run_compile_task(task, rec):
                 rec.sample(dict(part='c', tuple=task['tuple'], flags=dict(zip(FLAG_NAMES, flags)), stats=sk,
                                 models=[POOL[i] for i in task['tuple']]))
                 first = False
+
+
+# ----------------------------------------------------------------------------------------- part p: entries given as files
+READABLE_KINDS = ('obj', 'file')
+ENTRY_KINDS = ['obj', 'file', 'missing', 'corrupt', 'foreign', 'empty', 'dir']
+DIRECTORY_KINDS = ('file', 'corrupt', 'foreign', 'empty')  # what a directory listing can contain
+
+
+class EntryFiles:
+    """The files behind the non-object entries (a private temporary directory, removed by close())."""
+
+    def __init__(self):
+        import tempfile
+        self.dir = tempfile.mkdtemp(prefix='c08p_')
+        self.paths = {}
+        self.ndir = 0
+
+    def in_dir(self, where, fn):
+        cwd = os.getcwd()
+        os.chdir(where)
+        try:
+            return fn()
+        finally:
+            os.chdir(cwd)
+
+    def path(self, kind, idx, r):
+        import pickle
+        if (kind, idx) in self.paths:
+            return self.paths[(kind, idx)]
+        p = os.path.join(self.dir, f'{kind}{idx}.pickle')
+        if kind == 'file':
+            sub = os.path.join(self.dir, f'written{idx}')
+            os.mkdir(sub)
+            p = os.path.join(sub, self.in_dir(sub, r.write_pickle))  # the library's own writer
+        elif kind == 'corrupt':
+            with open(p, 'wb') as f:
+                f.write(b'\x80\x04\x95 these bytes are not a pickle of estimation results')
+        elif kind == 'empty':
+            open(p, 'wb').close()
+        elif kind == 'foreign':
+            with open(p, 'wb') as f:
+                pickle.dump({'not': 'estimation results'}, f)
+        elif kind == 'dir':
+            os.mkdir(p)
+        elif kind != 'missing':
+            raise ValueError(kind)
+        self.paths[(kind, idx)] = p
+        return p
+
+    def compile_directory(self, res, entries, statistics, kw):
+        """copies the files of the entries into a fresh directory and calls compile_results_in_directory there;
+        returns (table, file name of each entry) or None"""
+        import shutil
+        self.ndir += 1
+        sub = os.path.join(self.dir, f'listing{self.ndir}')
+        os.mkdir(sub)
+        names = []
+        for kind, idx, r in entries:
+            name = f'pool{idx}_{kind}.pickle'
+            shutil.copyfile(self.path(kind, idx, r), os.path.join(sub, name))
+            names.append(name)
+        try:
+            df = self.in_dir(sub, lambda: res.compile_results_in_directory(
+                statistics=statistics, include_parameter_estimates=kw['include_parameter_estimates'],
+                include_robust_stderr=kw['include_robust_stderr'], include_robust_ttest=kw['include_robust_ttest'],
+                formatted=kw['formatted']))
+        finally:
+            shutil.rmtree(sub, ignore_errors=True)
+        if df is None:
+            return None
+        if isinstance(df, tuple):
+            df = df[0]
+        return df, names
+
+    def close(self):
+        import shutil
+        shutil.rmtree(self.dir, ignore_errors=True)
+
+
+def entry_tasks(tier, seed):
+    if tier == 'quick':
+        pool, kinds, kinds3 = (0, 1, 2), ENTRY_KINDS[:4], ENTRY_KINDS[:4]
+    else:
+        pool, kinds, kinds3 = (0, 1, 2, 6), ENTRY_KINDS, ENTRY_KINDS[:5]
+    t = []
+    for ln in (1, 2, 3):
+        for tup in itertools.permutations(pool, ln):
+            if ln < 3:
+                t.append(dict(part='p', seed=seed, tier=tier, tuple=list(tup), kinds=list(kinds)))
+            else:  # one task per kind of the first entry
+                t += [dict(part='p', seed=seed, tier=tier, tuple=list(tup), kinds=list(kinds3), first=k0) for k0 in kinds3]
+    return t
+
+
+def entry_flags(tier, ln):
+    """all 2^5 switch combinations; in the quick tier, for three entries, the 2^3 ones with both robust switches on"""
+    allf = [list(f) for f in itertools.product((1, 0), repeat=5)]
+    if tier == 'quick' and ln == 3:
+        return [f for f in allf if f[1] == 1 and f[2] == 1]
+    return allf
+
+
+def run_entry_task(task, rec):
+    built = {}
+    files = EntryFiles()
+    try:
+        if task.get('replay'):
+            check_compile(task['tuple'], task['seed'], task['flags'], task['stats'], rec, built, kinds=task['kinds'],
+                          files=files, form=task.get('form', 'dict'))
+            return
+        tup = task['tuple']
+        first = True
+        for kinds in itertools.product(task['kinds'], repeat=len(tup)):
+            if task.get('first') and kinds[0] != task['first']:
+                continue
+            forms = ['dict'] + (['directory'] if all(kd in DIRECTORY_KINDS for kd in kinds) else [])
+            for form in forms:
+                for flags in entry_flags(task['tier'], len(tup)):
+                    if form == 'directory' and not flags[4]:
+                        continue  # compile_results_in_directory has no use_short_names switch: once
+                    try:
+                        check_compile(tup, task['seed'], flags, 'default', rec, built, kinds=list(kinds), files=files, form=form)
+                    except Exception as e:
+                        rec.case(None, ('raise', type(e).__name__), outcome=('compile-raises', type(e).__name__))
+                        rec.violation(f'{ID}|compile-with-file-entries-raises:{type(e).__name__}|form={form},formatted={flags[3]}',
+                                      f'compiling the pool tuple {tup} given as {list(kinds)} ({form}) raised '
+                                      f'{type(e).__name__}: {e}; flags={dict(zip(FLAG_NAMES, flags))}',
+                                      dict(part='p', seed=task['seed'], tuple=tup, kinds=list(kinds), form=form,
+                                           flags=list(flags), stats='default'), observed=repr(e))
+                    if first:
+                        rec.sample(dict(part='p', tuple=tup, entries=list(kinds), form=form,
+                                        flags=dict(zip(FLAG_NAMES, flags)), models=[POOL[i] for i in tup]))
+                        first = False
+    finally:
+        files.close()
 
 
 # ----------------------------------------------------------------------------------------- part l: likelihood ratio test
@@ -987,9 +1229,10 @@ LOGIT_DATA = [
     dict(x1=[1.0, 2.0, 3.0, 1.5, 2.5, 0.5], x2=[2.0, 1.5, 2.0, 1.0, 3.0, 1.0], choice=[1, 2, 2, 1, 1, 2]),
 ]
 REAL_MODELS = ['ls1', 'ls2', 'logit2']
+REAL_THR = ['one', 'e+4']
 
 
-def real_biogeme(model, seed, nboot):
+def real_biogeme(model, seed, nboot, thr='default'):
     import pandas as pd
     import biogeme.biogeme as bb
     import biogeme.database as db
@@ -1015,8 +1258,9 @@ def real_biogeme(model, seed, nboot):
             b1 = Beta(names[2][0], 0.0, None, 0.6 if seed % 2 else None, 0)
             b2 = Beta(names[2][1], 0.0, None, None, 0)
             ll = -((Variable('y') - b1 * Variable('x') - b2) ** 2)
+    extra = {} if THR_KINDS[thr] is None else dict(identification_threshold=THR_KINDS[thr])
     b = bb.BIOGEME(d, ll, parameters=Parameters(), generate_html=False, generate_pickle=False,
-                   save_iterations=False, number_of_threads=1, bootstrap_samples=max(nboot, 1))
+                   save_iterations=False, number_of_threads=1, bootstrap_samples=max(nboot, 1), **extra)
     b.modelName = 'c08real_' + model
     if model == 'logit2':
         b.calculate_null_loglikelihood({1: 1, 2: 1})
@@ -1043,6 +1287,11 @@ def real_tasks(tier, seed):
         tapes = [None] + [list(c) for b in sizes for c in itertools.combinations(range(len(pool)), b)]
         for i in range(0, len(tapes), 4):
             t.append(dict(part='r', seed=seed, model=model, tapes=tapes[i:i + 4]))
+        # the identification_threshold parameter of BIOGEME (forwarded to the results object) x tapes
+        for thr in REAL_THR:
+            sub = tapes[:2] if tier == 'quick' else tapes[:1] + tapes[1::3]
+            for i in range(0, len(sub), 4):
+                t.append(dict(part='r', seed=seed, model=model, tapes=sub[i:i + 4], thr=thr))
     return t
 
 
@@ -1058,14 +1307,17 @@ def m_from_results(r):
                 gradient=[float(g) for g in d.g], excluded=d.excludedData, threads=d.numberOfThreads, label='real')
 
 
-def check_real(model, tape, seed, rec, sample=False):
+def check_real(model, tape, seed, rec, sample=False, thr='default'):
     import numpy as np
     import numpy.random as npr
 
     case = dict(part='r', seed=seed, model=model, tape=tape)
     tag = f'real estimation model={model} bootstrap tape={tape} seed={seed}'
+    if thr != 'default':
+        case['thr'] = thr
+        tag += f' identification_threshold={THR_KINDS[thr]}'
     nboot = 0 if tape is None else len(tape)
-    b, n = real_biogeme(model, seed, nboot)
+    b, n = real_biogeme(model, seed, nboot, thr)
     pool = tape_pool(n)
     queue = [] if tape is None else [pool[i] for i in tape]
     saved = npr.randint
@@ -1083,7 +1335,7 @@ def check_real(model, tape, seed, rec, sample=False):
         import traceback
         tb = traceback.format_exc()
         in_results = 'results.py' in tb.split('\n')[-4] or '_calculate_stats' in tb
-        rec.case(('r', model, repr(tape), 'estimate'), ('raise', type(e).__name__), outcome=('estimate-raises', type(e).__name__))
+        rec.case(('r', model, repr(tape), thr, 'estimate'), ('raise', type(e).__name__), outcome=('estimate-raises', type(e).__name__))
         if in_results:
             k = 1 if model == 'ls1' else 2
             rec.violation(f'{ID}|bioResults-raises:{type(e).__name__}|K={k},bootstrap={"no" if tape is None else "yes"}',
@@ -1107,15 +1359,15 @@ def check_real(model, tape, seed, rec, sample=False):
     ref = reference(m)
     if sample:
         rec.sample(dict(part='r', model=model, tape=tape, values=m['values'], hessian=m['hessian'], bootstrap=m['bootstrap']))
-    run_views(r, m, ref, case, tag, ('r', model, repr(tape), seed), rec)
+    run_views(r, m, ref, case, tag, ('r', model, repr(tape), seed) + (() if thr == 'default' else (thr,)), rec)
 
 
 def run_real_task(task, rec):
     if task.get('replay'):
-        check_real(task['model'], task['tape'], task['seed'], rec)
+        check_real(task['model'], task['tape'], task['seed'], rec, thr=task.get('thr', 'default'))
         return
     for i, tape in enumerate(task['tapes']):
-        check_real(task['model'], tape, task['seed'], rec, sample=(i == 1))
+        check_real(task['model'], tape, task['seed'], rec, sample=(i == 1), thr=task.get('thr', 'default'))
 
 
 # ----------------------------------------------------------------------------------------- wiring of the extra parts
@@ -1123,6 +1375,7 @@ def extra_tasks(tier, seed):  # noqa: F811
     t = [dict(part='l', seed=seed, tier=tier, form='function'), dict(part='l', seed=seed, tier=tier, form='method')]
     t += real_tasks(tier, seed)
     t += compile_tasks(tier, seed)
+    t += entry_tasks(tier, seed)
     return t
 
 
@@ -1133,6 +1386,8 @@ def run_extra(task, rec):  # noqa: F811
         run_lr_task(task, rec)
     elif task['part'] == 'r':
         run_real_task(task, rec)
+    elif task['part'] == 'p':
+        run_entry_task(task, rec)
     else:
         raise ValueError(task['part'])
 
